@@ -1,5 +1,6 @@
 import DmrVerif.Driver.Loop
+import DmrVerif.Driver.Handshake
 
-/-! model driver for property C18 (stub: no operations registered yet) -/
+/-! model driver for property C18 (P2P and RDAC handshake handlers) -/
 
-def main : IO Unit := Dmr.Driver.runMain []
+def main : IO Unit := Dmr.Driver.runMainS Dmr.Driver.Handshake.handshakeStep Dmr.Driver.Handshake.dinit
